@@ -55,6 +55,8 @@ class Prop(common.PropertyCheck):
                 # and a float row gated at fraction 1 with scatter events outside the declared range, fluorescence clipped at zero
                 rows[-1].update({'gf': rng.choice([1.0, 1]), 'scatter_out': True, 'nonneg': 'zero'})
                 rows[-1]['units'][1] = rng.choice(['a.u.', 'RFI', 'Channel'])
+            if i % 2 == 1:
+                rows[-1]['n'] = 400        # exactly the documented minimum number of events: analysed like any other file
             yield {'seed': rng.randrange(1 << 30), 'datatype': dt, 'ninst': ninst,
                    'scatter_gain': rng.choice([None, None, 2, 0.5]), 'rows': rows, 'rewrite': rewrite, 'mixed_res': dt == 'I' and i % 3 == 0}
 
@@ -82,7 +84,7 @@ class Prop(common.PropertyCheck):
             iid = r['iid']
             fl = ex.inst[iid]['fl']
             fn = 's%d.fcs' % j
-            ex.write_fcs(fn, iid, n=700, voltage=450, seed=case['seed'] % 1000 + 10 + j, nonneg=r['nonneg'], scatter_out=r.get('scatter_out', False), time_order=r.get('time_order', 'sorted'))
+            ex.write_fcs(fn, iid, n=r.get('n', 700), voltage=450, seed=case['seed'] % 1000 + 10 + j, nonneg=r['nonneg'], scatter_out=r.get('scatter_out', False), time_order=r.get('time_order', 'sorted'))
             units = {}
             for c, u in zip(fl, r['units']):
                 cal = ('FL1', 'FL3') if iid == 'FC001' else ('GFP-A',)
